@@ -5,12 +5,15 @@ import (
 	"fmt"
 	"math"
 	"math/big"
+	"strconv"
+	"strings"
 	"testing"
 
 	"pgregory.net/rapid"
 
 	"github.com/evolbioinfo/gotree/tree"
 
+	"verif/internal/cli"
 	"verif/internal/gen"
 	"verif/internal/gt"
 	"verif/internal/h"
@@ -204,11 +207,15 @@ func checkAgainst(trees []*ref.Node, cut float64, tx *ref.Taxa, table map[string
 	if err != nil {
 		return err
 	}
+	return compareConsensus(m, len(trees), cut, tx, table, trivial, exact)
+}
+
+// compareConsensus judges a consensus tree (reference reading of its text) against the frequency table.
+func compareConsensus(m *ref.Node, n int, cut float64, tx *ref.Taxa, table map[string]*entry, trivial map[string]bool, exact bool) error {
 	u, err := ref.UnrootedOn(m, tx)
 	if err != nil {
 		return fmt.Errorf("consensus tree: %v (%s)", err, ref.Write(m))
 	}
-	n := len(trees)
 	rc := new(big.Rat).SetFloat64(cut)
 	for k, e := range table {
 		freq := big.NewRat(int64(e.count), int64(n))
@@ -431,5 +438,64 @@ func TestC09Reject(t *testing.T) {
 		},
 		Check:    checkRej,
 		Classify: func(c RejCase) (bool, []string) { return true, []string{"kind:" + c.Kind, fmt.Sprintf("pos-first=%v", c.Pos%len(c.Trees) == 0)} },
+	})
+}
+
+// ---------------------------------------------------------------------------------------
+// command level: gotree compute consensus [-f cutoff]
+
+type CliCase struct {
+	Trees   []*ref.Node `json:"trees"`
+	Cutoff  float64     `json:"cutoff"`
+	OmitF   bool        `json:"omit_f"` // leave -f out: the documented default 0.5 applies
+	Threads int         `json:"threads"`
+}
+
+func checkCli(c CliCase) error {
+	if !cli.Available() {
+		return fmt.Errorf("harness: gotree binary not built")
+	}
+	tx, table, trivial, err := expectedTable(c.Trees)
+	if err != nil {
+		return err
+	}
+	var in strings.Builder
+	for _, m := range c.Trees {
+		in.WriteString(ref.Write(m) + "\n")
+	}
+	args := []string{"compute", "consensus"}
+	cut := c.Cutoff
+	if c.OmitF {
+		cut = 0.5
+	} else {
+		args = append(args, "-f", strconv.FormatFloat(c.Cutoff, 'g', -1, 64))
+	}
+	r := cli.Run(cli.Scratch(), in.String(), args...)
+	ctx := fmt.Sprintf(" (gotree %v)\n%s", args, in.String())
+	if r.Code != 0 || r.TimedOut {
+		return fmt.Errorf("command failed with status %d: %s%s", r.Code, r.Stderr, ctx)
+	}
+	m, err := ref.Parse(strings.TrimRight(r.Stdout, "\r\n"))
+	if err != nil {
+		return fmt.Errorf("output not readable: %v%s", err, ctx)
+	}
+	if err := compareConsensus(m, len(c.Trees), cut, tx, table, trivial, dyadicAll(c.Trees)); err != nil {
+		return fmt.Errorf("%v%s", err, ctx)
+	}
+	return nil
+}
+
+func TestC09Cli(t *testing.T) {
+	h.Run(t, h.Spec[CliCase]{
+		Property: "C09", Name: "cli", Quick: 1600, Thorough: 32000,
+		Rule: "the same collections and thresholds through `gotree compute consensus -f x`, and with -f left out (documented default 0.5): the printed tree is judged against the same frequency table; non-trivial = >= 3 trees",
+		Gen: func(t *rapid.T, thorough bool) CliCase {
+			trees := genCollection(t, false, 1)
+			return CliCase{Trees: trees, Cutoff: cutoff(t, len(trees)), OmitF: rapid.IntRange(0, 3).Draw(t, "omitf") == 0}
+		},
+		Check: checkCli,
+		Classify: func(c CliCase) (bool, []string) {
+			return len(c.Trees) >= 3, []string{fmt.Sprintf("omit-f=%v", c.OmitF)}
+		},
 	})
 }
